@@ -74,7 +74,7 @@ func runC18(o opts) error {
 			break
 		}
 	}
-	b, _ := json.Marshal(map[string]any{"graphemes": ctx.G.Table()})
+	b, _ := json.Marshal(map[string]any{"graphemes": ctx.G.Table(), "links": ctx.L.Table()})
 	os.WriteFile(filepath.Join(o.out, "tables.json"), b, 0o644)
 	b, _ = json.Marshal(ctx.Cov.Report())
 	os.WriteFile(filepath.Join(o.out, "coverage.json"), b, 0o644)
